@@ -1,5 +1,6 @@
 use crate::diagnostic_emitter::MosResult;
 use crate::impl_request_handler;
+use crate::lsp::DocumentPath;
 use crate::lsp::{
     byte_offset_to_character, character_to_byte_offset, to_location, LspContext, RequestHandler,
 };
@@ -29,7 +30,7 @@ impl RequestHandler<PrepareRenameRequest> for PrepareRenameRequestHandler {
     ) -> MosResult<Option<PrepareRenameResponse>> {
         if let Some(codegen) = &ctx.codegen {
             let codegen = codegen.lock().unwrap();
-            let file_path = &params.text_document.uri.to_file_path().unwrap();
+            let file_path = &params.text_document.uri.document_path();
 
             let source_line = params.position.line as usize;
 
